@@ -277,7 +277,10 @@ func ruleC01Template(c *Ctx, r *Rep) {
 				unsupReasons[v.Unsupported]++
 				continue
 			}
-			msg := tplCheck(v.Items, root, v.Owned)
+			msg := v.AssertProblem
+			if msg == "" {
+				msg = tplCheck(v.Items, root, v.Owned)
+			}
 			if msg == "" {
 				msg = tplSiblingRegions(v.HoleLog)
 			}
@@ -340,6 +343,9 @@ func tplCheck(items []tplItem, root tplRoot, owned map[string]bool) string {
 		return fmt.Sprintf("[%d] %s", probs[0].PC, probs[0].Msg)
 	}
 	for i, in := range seq {
+		if in.Op == "opjumpifnot" && in.Target == i+1 {
+			return fmt.Sprintf("[%d] opjumpifnot targets its own successor: optimizeCodeOps rewrites a branch to the next instruction into opnop, which is an identity for opjump only — opjumpifnot pops the condition, so the condition value would stay on the stack and become the output", i)
+		}
 		if in.Op == "opret" && reached[i] {
 			return fmt.Sprintf("[%d] opret is reached by the inline flow, outside any function body", i)
 		}
